@@ -4,7 +4,10 @@
    (K-inner A) harness/embed_c09.c (helpers compiled with SEXP_USE_CUSTOM_LONG_LONGS=1) vs the extracted translation vs
                native __int128 vs the Z spec computed here
    (K-outer A) exact-integer arithmetic through the Scheme API on the customll build vs the default build vs Z
-   (K-inner B / K-outer B) see _simplify_part."""
+   (K-inner B / K-outer B) see _simplify_part; round 2: kind-exact AST comparison (Kinded.v), the pass run under an installed
+               handler + parameterize (fold_eval_unobservable), _handler_part (code compiled by eval/load while handlers,
+               parameters, wind extents, threads are active), _unbound_part, _opcode_table
+   (G)  gen/c09_callers.py re-translates the callers of the helpers (bignum.c digit loops, fixnum*fixnum in sexp_mul and the VM)."""
 import os, shutil, signal, subprocess, time
 from vlib import build as B, scm
 
@@ -422,7 +425,12 @@ def run(ctx):
                        "number<->string on values around 2^31, 2^62, 2^64, 2^96, 2^128 and random, customll build = default build = Z.  "
                        "(B) generated let-fragment programs (see notes: folds incl. raising and overflowing ones, constant lets, shadowing, assigned "
                        "parameters, literal tests, dropped and effectful statements) + corpus: analysed and optimised AST compared token for token with "
-                       "the model, SPEC value before = after; the same programs and richer ones (closures, recursion, rest parameters) under four builds.")
+                       "the model, SPEC value before = after; the same programs and richer ones (closures, recursion, rest parameters) under four builds.  "
+                       "Round 2: every constant position in BOTH spellings (self-evaluating = immediate / heap datum, quoted = SEXP_LIT node; incl. '#f '() quoted "
+                       "pairs, characters, quoted bignums, fold results that are #f), cond/and/or/when/unless, exact division; the dump keeps the kind "
+                       "(I/L/B) and must equal the kind-exact model Kinded.ksimplify; the pass runs inside with-exception-handler + parameterize and the "
+                       "observed handler calls / parameter value must equal the model's (none / unchanged); 100 eval/load-under-handler programs "
+                       "(10 dynamic-context families x 8 code shapes x 14 raising folds, dead and live) on four builds = R7RS oracle.")
     from gen import c09_luint
     dirs, errs = _builds(ctx)
     d_custom = dirs.get("customll") or os.path.join(B.SCRATCH, "customll-%s" % B.source_hash())
@@ -430,6 +438,8 @@ def run(ctx):
         ctx.broken("translator:C09_Luint", "no customll build tree with generated headers to translate from")
         return
     got = c09_luint.regen(ctx, d_custom)
+    from gen import c09_callers
+    c09_callers.regen(ctx, B.REPO)          # Gen/C09_Callers.v: digit loops of fxmul / fxdiv, fixnum*fixnum of sexp_mul and of the VM
     ctx.coq_obligations("Properties_C09")
     if got is None:
         return
@@ -790,7 +800,7 @@ RICH = [  # closures, recursion, rest parameters, internal defines: compared acr
 
 
 # ---------------------------------------------------------------- (A) code compiled while handlers / parameters / wind extents are active
-HPRELUDE = """(import (scheme base) (scheme write) (scheme eval) (srfi 18))
+HPRELUDE = """(import (scheme base) (scheme write) (scheme eval) (scheme file) (scheme load) (srfi 18))
 (define env (environment '(scheme base)))
 (define trace '())
 (define (note x) (set! trace (cons x trace)))
@@ -809,9 +819,12 @@ RAISING_FOLDS = ["(quotient 7 0)", "(remainder 7 0)", "(quotient '7 '0)", "(+ 1 
 VALUE_FOLDS = [("(+ 1 2)", "3"), ("(* 6 7)", "42"), ("(quotient 9 2)", "4"), ("(- '10 3)", "7"), ("(+ 4611686018427387903 1)", "4611686018427387904")]
 
 
+LOADFILE = os.path.join(B.SCRATCH, "tmp-c09-load-%d.scm" % os.getpid())
+
+
 def handler_programs(rng, n):
     """programs that COMPILE code (eval) while an exception handler, a guard, a parameterize, a dynamic-wind extent or a
-    thread is active.  The compiled code holds constant arithmetic applications whose evaluation raises, in positions
+    thread is active (the last family compiles by LOADing a file the program wrote).  The compiled code holds constant arithmetic applications whose evaluation raises, in positions
     that are never executed (dead) or that are executed (live).  -> (program text, expected RES/ERR line, expected trace):
     the SPEC is R7RS: compiling executes nothing, so the trace holds only what the EXECUTED code raises, in order, and
     raise-continuable returns what the handler returns.  Escaping handlers come last (a broken build may not survive them)."""
@@ -830,7 +843,7 @@ def handler_programs(rng, n):
         code, dead = rng.choice(shapes)
         live = rng.random() < 0.5
         arg = "#t" if live else "#f"
-        c = k % 9
+        c = k % 10
         if c == 0:     # returning handler; the code with the raising fold is compiled, the fold never runs
             p = ("(with-exception-handler (lambda (e) (note (list 'h (kind e))) 99) (lambda () (let ((p (eval '%s env))) (note 'compiled) (let ((v (p #f))) (note 'ran) v))))" % code)
             exp = ("RES " + dead, "(compiled ran)")
@@ -863,6 +876,10 @@ def handler_programs(rng, n):
         elif c == 7:   # the handler is itself inside compiled code; an uncaught live error reaches the case's own guard
             p = "(let ((p (eval '%s env))) (note 'compiled) (p %s))" % (code, arg)
             exp = ("ERR err", "(compiled)") if live else ("RES " + dead, "(compiled)")
+        elif c == 9:   # load of a file (written by the program itself) under a guard: every top-level form of it is compiled then
+            p = ("(begin (call-with-output-file \"%s\" (lambda (o) (write '(define c09-unrelated %s) o) (write '(define c09-loaded %s) o))) "
+                 "(guard (e (#t (note (list 'g (kind e))) 'caught)) (load \"%s\") (note (list 'loaded c09-unrelated)) (c09-loaded %s)))" % (LOADFILE, vf, code, LOADFILE, arg))
+            exp = ("RES caught", "((loaded %s) (g err))" % vv) if live else ("RES " + dead, "((loaded %s))" % vv)
         else:          # escaping handler (call/cc)
             p = ("(call-with-current-continuation (lambda (k) (with-exception-handler (lambda (e) (note (list 'h (kind e))) (k 'escaped)) "
                  "(lambda () (let ((p (eval '%s env))) (note 'compiled) (p %s))))))" % (code, arg))
@@ -874,7 +891,7 @@ def handler_programs(rng, n):
 
 def _handler_part(ctx, dirs):
     rng = ctx.rng
-    hp = handler_programs(rng, 90 if not ctx.thorough else 3000)
+    hp = handler_programs(rng, 100 if not ctx.thorough else 3000)
     text = HPRELUDE + "\n".join("(run-case %d (lambda () %s))" % (i, p) for i, (p, _) in enumerate(hp)) + "\n"
     outs = {}
     for v, d in dirs.items():
@@ -882,6 +899,8 @@ def _handler_part(ctx, dirs):
         outs[v] = _split_cases(r.stdout)
         if len(outs[v]) != len(hp):
             ctx.broken("outer-correspondence:C09:handlers:" + v, "build %s ran %d of %d eval-under-handler programs (rc=%s): %s" % (v, len(outs[v]), len(hp), r.returncode, r.stderr[-400:]))
+    if os.path.exists(LOADFILE):
+        os.unlink(LOADFILE)
     order = [v for v in ("default", "customll", "both", "nosimplify") if v in outs]
     for i, (p, (eres, etr)) in enumerate(hp):
         ctx.count(1, key=("outerH", p), nontrivial=True)
@@ -905,7 +924,7 @@ def _handler_part(ctx, dirs):
             break
     if hp:
         ctx.sample(dict(kind="outer-eval-under-handler", program=hp[0][0], expected=list(hp[0][1]), outputs={v: outs[v].get(0) for v in outs}))
-    ctx.note("eval-under-handler programs: %d (9 context families x 8 code shapes x %d raising folds), all four builds = R7RS oracle" % (len(hp), len(RAISING_FOLDS)))
+    ctx.note("eval/load-under-handler programs: %d (10 context families x 8 code shapes x %d raising folds), all four builds = R7RS oracle" % (len(hp), len(RAISING_FOLDS)))
 
 
 # A non-final sequence element that is a bare variable reference is dropped (simplify.c:139-141) even when the variable
@@ -979,16 +998,40 @@ def _simplify_part(ctx, exe, dirs):
         if c04_minfix:
             ctx.note("probe: (quotient/remainder -2^62 2^62) = %s in every build, Z says (-1 0): C04's defect (fixes/C04-quotient-min-fixnum-by-bignum.patch not applied to this tree)" % pr.stdout.strip())
     # ---------------------------------------------------------------- K-inner: analyze / optimize / dump
-    text = open(os.path.join(HERE, "..", "harness", "c09_simplify.scm")).read()
-    text += "\n".join("(c09-case %d '(lambda () %s))" % (i, p) for i, p in enumerate(progs)) + "\n"
-    r = _run_file(d0, text, "inner")
+    htext = open(os.path.join(HERE, "..", "harness", "c09_simplify.scm")).read()
     before, after, dynobs = {}, {}, {}
-    for line in r.stdout.split("\n"):
-        f = line.split(" ")
-        if len(f) > 2 and f[0].isdigit() and f[1] in ("A", "B"):
-            (before if f[1] == "A" else after)[int(f[0])] = f[2:]
-        elif len(f) >= 2 and f[0].isdigit() and f[1] in ("H", "X"):
-            dynobs[int(f[0])] = f[1:]
+    # one chibi process per 1000 programs (a session of many thousand analyze/optimize calls is not what is under test);
+    # if a process dies, the cases it did not finish are run again in a fresh process, and the death is reported
+    CH, r = 1000, None
+    for lo in range(0, len(progs), CH):
+        todo = list(range(lo, min(lo + CH, len(progs))))
+        for attempt in range(3):
+            if not todo:
+                break
+            text = htext + "\n".join("(c09-case %d '(lambda () %s))" % (i, progs[i]) for i in todo) + "\n"
+            r = _run_file(d0, text, "inner")
+            done = set()
+            for line in r.stdout.split("\n"):
+                f = line.split(" ")
+                if len(f) > 2 and f[0].isdigit() and f[1] in ("A", "B"):
+                    (before if f[1] == "A" else after)[int(f[0])] = f[2:]
+                elif len(f) >= 2 and f[0].isdigit() and f[1] in ("H", "X"):
+                    dynobs[int(f[0])] = f[1:]
+                    done.add(int(f[0]))
+            rest = [i for i in todo if i not in done]
+            if isinstance(r.returncode, int) and r.returncode < 0 and rest and len(rest) < len(todo):
+                keep = os.path.join(B.SCRATCH, "c09-crash-%d.scm" % todo[0])
+                with open(keep, "w") as fh:
+                    fh.write(text)
+                ctx.violation("vm:crash-in-analyze-optimize-session", input="the dump harness (harness/c09_simplify.scm) followed by %d (c09-case ..) forms: %s" % (len(todo), keep),
+                              expected="the process runs all cases", observed="chibi-scheme died with signal %d after case %d (%d of %d done); the remaining cases run in a fresh process" % (-r.returncode, max(done), len(done), len(todo)),
+                              replay="LD_LIBRARY_PATH=%s CHIBI_IGNORE_SYSTEM_PATH=1 CHIBI_MODULE_PATH=%s/lib %s/chibi-scheme %s > /dev/null; echo $?   # heap-layout dependent: depends on the file's path and content" % (d0, d0, d0, keep),
+                              why="the default build crashes while running a valid Scheme program.  Known cause (C02 defect 7, fixes/C02-analyze-opcode-arity-ref-root.patch): eval.c analyze keeps the fresh "
+                                  "Ref of a wrong-arity opcode call - (quotient x), (remainder a b c): the generator emits them on purpose - in an unrooted C local while the arguments are analyzed; "
+                                  "a collection in between sweeps it.  Not the simplification pass; gone once that patch is in the checked tree")
+                todo = rest[1:] if attempt == 1 else rest       # second death on the same first case: skip that case
+                continue
+            break
     if r.returncode != 0 or len(after) != len(progs):
         ctx.broken("inner-correspondence:C09:simplify", "dump harness rc=%s, %d of %d cases: %s" % (r.returncode, len(after), len(progs), (r.stderr or r.stdout)[-600:]))
     for i in range(len(progs)):
